@@ -20,7 +20,10 @@ CONF = dict(
           'StartNTSKEServerSCION (handleKeyExchangeQUIC) + StartSCIONServer with a QUIC Fetcher and the real SCION client. ke.starget: the real client.MeasureClockOffsetSCION with NTS '
           '(time server in the own AS, empty path; Fetcher over TLS or over QUIC): exchanges naming same host/other port, other host/same port, both, only one, nothing, and re-key '
           'sequences; observed: which UDP socket receives the datagram (underlay destination) AND destination host and port of the SCION/UDP header inside, cookie carried. '
-          'ke.overlap: two or three goroutines call FetchData on ONE Fetcher while the scripted TLS peer holds the first connection in the middle of its message (after 0, 1 or 3 '
+          'ke.bodylen (known finding bodylen-shift-hides-records): messages whose next-protocol / algorithm / port record has a body of 4, 6 or 0 bytes, built so that the two-byte '
+          'reads of ReadData move the record boundaries past a critical error record, past a second algorithm record (17), or onto an unrecognised record that is then read as '
+          'the only cookie; TLS and QUIC; the model follows the code (agree), the oracle of this kind (C20_framed_ok) reads the message by the RFC 8915 framing and demands '
+          'failure. ke.overlap: two or three goroutines call FetchData on ONE Fetcher while the scripted TLS peer holds the first connection in the middle of its message (after 0, 1 or 3 '
           'cookie records; the message then goes on to its end, to an error record, or breaks off); observed: every call\'s result, the peer\'s exporter values per connection '
           'in arrival order, VerifData afterwards; oracle: some order of the calls is a history the sequential oracle accepts and leaves what the Fetcher holds; model: the calls serialise, any order. '
           'Every third ke.hist history gives the Fetcher the name "localhost" (listener at 127.0.0.1) for some exchanges: the default server is the connection\'s remote '
@@ -52,7 +55,9 @@ CONF = dict(
                 'segmentations, all exporters, both transports (TLS/TCP and QUIC/SCION) and all finite histories of FetchData/StoreCookie calls on a Fetcher of either transport; the model is tied to net/ntske, core/client and core/server by running '
                 'generated histories on the real code against a scripted TLS peer, a scripted QUIC/SCION peer and the project\'s own servers every run; the C20 oracle is evaluated on the implementation\'s observations'),
     level_note=('Trusted: Coq kernel, hand-written model validated by the correspondence run, extraction, harness, crypto/tls. The TLS branch of exchangeKeys never closes its '
-                'connection (observation, outside the property). D-C20b (QUIC path discarded the dialQUIC defaults; fixed by 38f59d0) is covered: C20_quic_exchange_ignores_previous_state and '
+                'connection (observation, outside the property). KNOWN FINDING (not repaired): ReadData reads 2 bytes of fixed-size records whatever their length field says, so a '
+                'message with such a record of another length can hide an error record from the client (C20_error_record_hidden_refuted, kind ke.bodylen); the success <=> '
+                'acceptance theorems are therefore stated for 2-byte bodies of those records (strict scripts), where the code\'s parse is the framed parse. D-C20b (QUIC path discarded the dialQUIC defaults; fixed by 38f59d0) is covered: C20_quic_exchange_ignores_previous_state and '
                 'the ke.quic histories (the reverse of the fix is detected). dialQUIC with a remote AS other than the local one and no SCION daemon calls a nil connector '
                 '(observation, not exercised). No axioms.'),
     explanation=('oracle clauses: no connection while cookies are left and the returned keys/target/pool are those of the last exchange minus cookies used plus cookies stored; with an '
@@ -62,5 +67,5 @@ CONF = dict(
                  'server/port = last named ones or key-exchange host/123 (over SCION: host of the configured remote address/10123); NTP request goes to that socket with the issued cookie; own server: cookies contain the client\'s keys'),
     timeout_quick=900,
     timeout_thorough=3000,
-    min_cases={'ke.hist': 802, 'ke.overlap': 9, 'ke.own': 3, 'ke.ownq': 3, 'ke.quic': 64, 'ke.starget': 19, 'ke.target': 14},
+    min_cases={'ke.bodylen': 4, 'ke.hist': 802, 'ke.overlap': 9, 'ke.own': 3, 'ke.ownq': 3, 'ke.quic': 63, 'ke.starget': 19, 'ke.target': 14},
 )
